@@ -94,6 +94,12 @@ func H12f() {
 			def.SubmissionRequirements = []*SubmissionRequirement{{Rule: "all", FromNested: []*SubmissionRequirement{{Rule: "all", From: "A"}, nil}}}
 		}
 		vClass("null member in a definition that was not schema-validated")
+		// the decoder (PresentationDefinition.UnmarshalJSON) runs this check on every decoded definition and refuses
+		// the ones it rejects; only what passes it can reach the matching code. encoding/json itself is not modelled.
+		if def.checkNoNullMembers() != nil {
+			vCover("null-member-refused-by-decoder")
+			return
+		}
 		vTag("entry")
 		if vBool() {
 			def.CredentialsRequired()
